@@ -6,7 +6,7 @@
 (* script failure = the error named on stderr, exit 1; never a signal.     *)
 (* The outcome does not depend on --quiet / --debug / DEBUG_* settings.    *)
 (***************************************************************************)
-EXTENDS Bytes, CryptoPrims
+EXTENDS Bytes, CryptoPrims, TLC
 
 \* refused = the script is outside the domain (undecodable, undefined opcode, oversized push / script) or the options are rejected
 CliOutcome(refused, s) ==
@@ -81,6 +81,22 @@ SplitCodes(codes, sep, acc) ==
 PretendListWellFormed(text) ==
     LET items == SplitCodes(StrToCodes(text), 44, <<>>)
     IN \A i \in 1..Len(items) : CountOf(items[i], 58) = 1 /\ items[i][1] # 58 /\ items[i][Len(items[i])] # 58
+
+\* --dataset=<name> / -X<name> (datasets.h): --tx is read from doc/txs/<name>-tx and --txin from doc/txs/<name>-in, each only when the
+\* option itself is absent (an explicit --tx / --txin wins); a file that is needed and cannot be opened is an error (exit 1, no session).
+\* The line terminators that end the file are not part of the transaction text.  o.dsfiles records what the two files held when the
+\* tool ran (present, text); o.txopt / o.txinopt are the explicit options ("" = not given).
+RECURSIVE StripEol(_)
+StripEol(codes) == IF codes # <<>> /\ codes[Len(codes)] \in {10, 13} THEN StripEol(SubSeq(codes, 1, Len(codes) - 1)) ELSE codes
+DatasetPath(name, w) == "doc/txs/" \o name \o (IF w = "tx" THEN "-tx" ELSE "-in")
+DatasetOpt(o, w) == IF w = "tx" THEN o.txopt ELSE o.txinopt
+DatasetNeeds(o, w) == DatasetOpt(o, w) = ""
+DatasetRefused(o) == \E w \in {"tx", "in"} : DatasetNeeds(o, w) /\ ~o.dsfiles[w].present
+DatasetText(o, w) == IF DatasetNeeds(o, w) THEN CodesToStr(StripEol(StrToCodes(o.dsfiles[w].text))) ELSE DatasetOpt(o, w)
+\* the session a --dataset run opens is the session of the expanded options
+DatasetExpand(o) == IF "dataset" \notin DOMAIN o THEN o
+                    ELSE IF DatasetRefused(o) THEN [dsrefused |-> TRUE] @@ o
+                    ELSE [tx |-> DatasetText(o, "tx"), txin |-> DatasetText(o, "in")] @@ o
 
 \* C15: whatever the input, a tool run ends by itself with a result or a diagnostic: an exit status, no terminating signal,
 \* no sanitizer or valgrind report (out-of-bounds / use-after-free / uninitialised / mismatched deallocation), no hang
